@@ -172,14 +172,26 @@ theorem cmp_bound_y (hk : KeyOk P x D) (hinj : Function.Injective P.rank) (op : 
 
 /-! ### The state invariant of an and/or tree all of whose nodes are consulted with `x` bound -/
 
-/-- Comparisons, truth tests, predicates, conjunctions and disjunctions (no sub-query). -/
+/-- Comparisons, truth tests, predicates, conjunctions, disjunctions and sub-queries in condition
+    position (every shape of `Cond`; kept as a predicate so that statements name their fragment). -/
 def Cond.tree : Cond V → Bool
   | .cmp _ _ _ => true
   | .truth _ _ => true
   | .pred _ _ _ => true
   | .and l r => Cond.tree l && Cond.tree r
   | .elseIf l r => Cond.tree l && Cond.tree r
-  | .sub _ _ => false
+  | .sub _ c => Cond.tree c
+
+omit [BEq V] in
+theorem Cond.tree_all : ∀ (c : Cond V), Cond.tree c = true := by
+  intro c
+  induction c with
+  | cmp _ _ _ => rfl
+  | truth _ _ => rfl
+  | pred _ _ _ => rfl
+  | and l r ihl ihr => simp [Cond.tree, ihl, ihr]
+  | elseIf l r ihl ihr => simp [Cond.tree, ihl, ihr]
+  | sub _ c ih => simpa [Cond.tree] using ih
 
 /-- The caches of the tree: the flag under which a node is evaluated is fixed by its position (the left
     operand of an ElseIf is always asked for its false outputs). -/
@@ -189,6 +201,7 @@ def SInv : Cond V → Path → Bool → St → Prop
       BSpecY P x D (getNode st π).rcache y (Hc W r) ∧ SInv l (0 :: π) y st ∧ SInv r (1 :: π) y st
   | .elseIf l r, π, y, st =>
       BSpecY P x D (getNode st π).rcache y (Hc W r) ∧ SInv l (0 :: π) true st ∧ SInv r (1 :: π) y st
+  | .sub _ c, π, y, st => SInv c (0 :: π) y st
   | _, _, _, _ => True
 
 omit [BEq V] in
@@ -209,7 +222,10 @@ theorem sinv_frame : ∀ (c : Cond V) (π : Path) (y : Bool) (st st' : St),
     simp only [SInv] at *
     exact ⟨by rw [h π (inSub_refl π)]; exact hc.1, ihl _ _ _ _ (fun π' hp => h π' (inSub_child hp)) hc.2.1,
       ihr _ _ _ _ (fun π' hp => h π' (inSub_child hp)) hc.2.2⟩
-  | sub _ _ _ => intro _ _ _ _ _ _; trivial
+  | sub _ c ih =>
+    intro π y st st' h hc
+    simp only [SInv] at *
+    exact ih _ _ _ _ (fun π' hp => h π' (inSub_child hp)) hc
 
 /-- What one evaluation step for the object `o` has to deliver on the sub-tree of `ρ`: the outputs, the
     cache invariant kept, a change confined to the sub-tree, and a sub-tree that stays fine for every
@@ -462,7 +478,17 @@ theorem onlyX_of_single_tree : ∀ (c : Cond V), Cond.tree c = true → Cond.sin
       rcases hv with hv | hv
       · exact l2 v hv
       · exact r2 v hv
-  | sub _ _ _ => intro hc; simp [Cond.tree] at hc
+  | sub sel c ih =>
+    intro hc hs
+    simp only [Cond.tree] at hc
+    obtain ⟨c1, c2⟩ := ih hc hs.1
+    refine ⟨?_, ?_⟩
+    · simp only [Cond.vars]; intro e; exact c1 (List.append_eq_nil_iff.1 e).1
+    · intro v hv
+      simp only [Cond.vars, List.mem_append] at hv
+      rcases hv with hv | hv
+      · exact c2 v hv
+      · exact hs.2 v hv
 
 omit [BEq V] in
 theorem regR_not_left (π π' : Path) (h : RegR π π') : ¬ InSub (0 :: π) π' := by
@@ -642,7 +668,24 @@ theorem bound_ok_y (hk : KeyOk P x D) (hinj : Function.Injective P.rank) : ∀ (
     simp only [evalM, hl1, hne, Bool.false_eq_true, if_false]
     obtain ⟨t1, t2, t3, t4⟩ := this
     exact ⟨t1, by simp only [SInv]; exact ⟨t2.2.1, t2.1, t2.2.2⟩, t3, t4⟩
-  | sub sel c _ => intro hc; simp [Cond.tree] at hc
+  | sub sel c ih =>
+    -- a sub-query in condition position: its condition, then its selected expressions (all bound)
+    intro hc hs hf π y req o ho st hinv hdd
+    simp only [Cond.tree] at hc
+    simp only [Cond.noFlat, Bool.and_eq_true] at hf
+    simp only [SInv] at hinv
+    obtain ⟨c1, c2, c3, c4⟩ := ih hc hs.1 hf.1 (0 :: π) y (fun wt => req wt ++ sel.flatMap Term.binds) o ho st hinv
+      (invOn_sub P hdd (fun π' h => inSub_child h))
+    have hargs : evalArgs W D sel [(x, o)] = [([(x, o)], termsVal W (constAsg o) sel)] :=
+      args_closed W D sel hf.2 [(x, o)] (constAsg o) (ext_single x o)
+        (fun v hv => by rw [hs.2 v hv]; exact bound_single x o)
+    refine ⟨?_, by simp only [SInv]; exact c2, frameOn_sub c3 (fun π' h => inSub_child h), ?_⟩
+    · simp only [evalM, c1, singleOut, closedOut, denote]
+      by_cases hy : (denote W (constAsg o) c || y) = true
+      · simp [hy, hargs]
+      · simp [hy]
+    · intro β₂ h2 hcl
+      exact invOn_extend P h2 c3 (c4 β₂ (invOn_sub P h2 (fun π' h => inSub_child h)) hcl)
 
 /-! ### The query: a conjunctive first conjunct (it enumerates the domain), then any and/or tree -/
 
@@ -706,7 +749,7 @@ theorem sinv_reset : ∀ (c : Cond V) (π : Path) (y : Bool) (st : St),
     intro π y st h
     simp only [SInv, getNode_resetDedup] at *
     exact ⟨h.1, ihl _ _ _ h.2.1, ihr _ _ _ h.2.2⟩
-  | sub _ _ _ => intro _ _ _ _; trivial
+  | sub _ c ih => intro π y st h; simp only [SInv] at *; exact ih _ _ _ h
 
 theorem sinv_nil : ∀ (c : Cond V) (π : Path) (y : Bool), SInv P x W D c π y ([] : St) := by
   intro c
@@ -716,7 +759,7 @@ theorem sinv_nil : ∀ (c : Cond V) (π : Path) (y : Bool), SInv P x W D c π y 
   | pred _ _ _ => intro _ _; trivial
   | and l r ihl ihr => intro π y; simp only [SInv]; exact ⟨Or.inl (by simp [getNode]), ihl _ _, ihr _ _⟩
   | elseIf l r ihl ihr => intro π y; simp only [SInv]; exact ⟨Or.inl (by simp [getNode]), ihl _ _, ihr _ _⟩
-  | sub _ _ _ => intro _ _; trivial
+  | sub _ c ih => intro π y; simp only [SInv]; exact ih _ _
 
 /-- **Top position.**  `and_(c₁, c₂)` evaluated the way a query evaluates it (`x` unbound), result cache
     enabled, duplicate tracking sets clean: the L1 outputs over the whole domain, in order. -/
